@@ -109,3 +109,4 @@ def _config(ctx, idx):
 def run(ctx):
     for i in range(ctx.budget(10, 60)):
         _config(ctx, i)
+        ctx.gc()
